@@ -32,6 +32,8 @@ const (
 	opApply  = "apply"
 	opRollb  = "rollb"
 	opGet    = "get"
+	opLock   = "lock"   // locking mode: a second transaction takes the exclusive lock of the slot the next insert would use
+	opUnlock = "unlock" // ... and releases its locks
 )
 
 // Size encoding: >0 literal; -1 = exactly the space the page will still accept for a new row,
@@ -84,6 +86,7 @@ func str(n int, fill byte, salt int) string {
 }
 
 type stats struct {
+	otherLocks int // locks taken by the second transaction on the slot the next insert would use
 	partialUpd int // schema mode: updates issued for a column subset
 	shiftOps   int // accepted size-changing update / applied delete that had to move other rows' bytes, with >=2 other rows
 	accepted   int
@@ -237,6 +240,8 @@ func run(c *Case, st *stats) *vf.Failure {
 		return n
 	}
 
+	txn2 := access.NewTransaction(types.TxnID(2))
+	var locked2 []page.RID
 	for step, op := range c.Ops {
 		before := *tp.Data()
 		var tgt int
@@ -246,6 +251,28 @@ func run(c *Case, st *stats) *vf.Failure {
 		rid := &page.RID{}
 		rid.Set(types.PageID(7), uint32(tgt))
 		switch op.K {
+		case opLock:
+			if !c.Locking {
+				continue
+			}
+			cand := len(slots)
+			for i, sl := range slots {
+				if sl.st == stEmpty {
+					cand = i
+					break
+				}
+			}
+			r := page.RID{}
+			r.Set(types.PageID(7), uint32(cand))
+			if lockMgr.LockExclusive(txn2, &r) {
+				locked2 = append(locked2, r)
+				st.otherLocks++
+			}
+		case opUnlock:
+			if len(locked2) > 0 {
+				lockMgr.Unlock(txn2, locked2)
+				locked2 = nil
+			}
 		case opInsert:
 			n := size(op)
 			data := mkData(n, op.Fill, step)
@@ -419,7 +446,7 @@ func run(c *Case, st *stats) *vf.Failure {
 var sizeDict = []int{1, 2, 7, 8, 9, 100, 1000, -1, -2, -3, 4064, 4063, 4065, 2032, 2028}
 
 func genOp(t *rapid.T) Op {
-	k := rapid.SampledFrom([]string{opInsert, opInsert, opInsert, opUpdate, opUpdate, opUpdate, opMark, opApply, opApply, opRollb, opGet}).Draw(t, "k")
+	k := rapid.SampledFrom([]string{opInsert, opInsert, opInsert, opInsert, opInsert, opInsert, opUpdate, opUpdate, opUpdate, opUpdate, opUpdate, opUpdate, opMark, opMark, opApply, opApply, opApply, opApply, opRollb, opRollb, opGet, opGet, opLock, opUnlock}).Draw(t, "k")
 	op := Op{K: k}
 	if k != opInsert {
 		op.Target = rapid.IntRange(0, 40).Draw(t, "t")
@@ -453,7 +480,7 @@ func genCase(t *rapid.T) *Case {
 	}
 }
 
-const rule = "Case = generated sequence (8-90 ops) of InsertTuple/UpdateTuple(grow/shrink/same, rollback flag on/off)/MarkDelete/ApplyDelete/RollbackDelete/GetTuple on one 4096-byte TablePage, sizes from a boundary dictionary (1,2,7,8,9,100,1000,exact remaining space and +-1,4064) and uniform ranges, with and without a lock manager; in a third of the cases the rows are tuples of a two-varchar schema and updates are also issued for a column subset (column index list + schema, as the update executor does). Non-trivial = some accepted size-changing update or applied delete hit a row that was not at the free-space pointer (other rows' bytes had to shift) while >= 2 other rows were stored."
+const rule = "Case = generated sequence (8-90 ops) of InsertTuple/UpdateTuple(grow/shrink/same, rollback flag on/off)/MarkDelete/ApplyDelete/RollbackDelete/GetTuple on one 4096-byte TablePage, sizes from a boundary dictionary (1,2,7,8,9,100,1000,exact remaining space and +-1,4064) and uniform ranges, with and without a lock manager (with it, a second transaction sometimes holds the lock of the slot the next insert would take, so that the insert is refused for its lock); in a third of the cases the rows are tuples of a two-varchar schema and updates are also issued for a column subset (column index list + schema, as the update executor does). Non-trivial = some accepted size-changing update or applied delete hit a row that was not at the free-space pointer (other rows' bytes had to shift) while >= 2 other rows were stored."
 
 var assumptions = []string{
 	"logging disabled (log-record side effects are outside this property)",
